@@ -290,9 +290,14 @@ package locate
 //@   prop C10
 //@   may-panic
 //@   opaque-callee onSendFail onRegionError getRPCContext backoffOnNoCandidate backoffOnRetry setReqAccessLocation patchRequestSource SetContextNoAttach getStoreToken releaseStoreToken send onSendSuccess CheckKilled TraceIDFromContext GetTraceControlFlags replicaType
+// (state invariant of the machine: a pending region error always comes with the response that carried it)
+//@   requires pending: s.vars.regionErr != nil ==> s.vars.resp != nil
+//@   ensures pending: !done ==> (s.vars.regionErr != nil ==> s.vars.resp != nil)
 //@   at call(send) assert marked: s.vars.sendTimes > 0 ==> s.args.req.IsRetryRequest
 //@   ensures once: s.vars.sendTimes == old(s.vars.sendTimes) || s.vars.sendTimes == old(s.vars.sendTimes) + 1
 //@   ensures genuine: done && s.vars.err == nil && s.vars.resp != nil && s.vars.regionErr == nil ==> s.vars.sendTimes == old(s.vars.sendTimes) + 1
+// a step that ends the call leaves an answer behind: an error or a response (possibly a region-error response) - never neither
+//@   at return assert outcome: done ==> s.vars.err != nil || s.vars.resp != nil
 
 // Read-timestamp validation looks at the timestamp and the stale-read flag the request really carries.
 //@ func (*RegionRequestSender) validateReadTS
@@ -301,6 +306,10 @@ package locate
 //@   at call(ValidateReadTS) assert asked: arg_readTS == readTS && arg_isStaleRead == req.StaleRead
 //@   ensures reads: (req.StoreTp != tikvrpc.TiDB && (req.Type == tikvrpc.CmdGet || req.Type == tikvrpc.CmdScan || req.Type == tikvrpc.CmdBatchGet || req.Type == tikvrpc.CmdCop || req.Type == tikvrpc.CmdCopStream ||
 //@       req.Type == tikvrpc.CmdBatchCop || req.Type == tikvrpc.CmdScanLock || req.Type == tikvrpc.CmdBufferBatchGet)) || result == nil
+// ... and every command that reads at a timestamp - point and batch gets (also through the pipelined buffer), scans, lock
+// scans and the coprocessor commands - passes only if the validator accepted the timestamp it carries.
+//@   at return assert allreads: result == nil && req.StoreTp != tikvrpc.TiDB && (req.Type == tikvrpc.CmdGet || req.Type == tikvrpc.CmdScan || req.Type == tikvrpc.CmdBatchGet || req.Type == tikvrpc.CmdCop || req.Type == tikvrpc.CmdCopStream ||
+//@       req.Type == tikvrpc.CmdBatchCop || req.Type == tikvrpc.CmdScanLock || req.Type == tikvrpc.CmdBufferBatchGet) ==> oracle.tsAccepted(s.readTSValidator, readTS, req.StaleRead)
 
 // Nothing is sent before the read timestamp passed validation.
 //@ func (*RegionRequestSender) SendReqCtx
@@ -309,6 +318,7 @@ package locate
 //@   opaque-callee SendReqAsync failpointSendReqResult disableReadFeaturesForNextGen reset logSendReqError next GetTotalSleep SpanFromContext
 //@   at call(next) assert validated: err == nil
 //@   loop 2 invariant validated: err == nil
+//@   loop 2 invariant pending: state.vars.regionErr != nil ==> state.vars.resp != nil
 
 // A stale-command region error is retried for free only when a replica selector moves on to another peer; without a
 // selector (TiFlash, TiDB endpoints) the retry is paid for with a back-off of the stale-command kind (whose budget
@@ -386,3 +396,17 @@ package locate
 //@   opaque-callee onSendFailure OnSendFail NeedReloadRegion InvalidateTiFlashComputeStoresIfGRPCError getClientExt CloseAddrVer CloseAddr getErrMsg storeIDLabel onReadReqConfigurableTimeout
 //@   at return assert paid: err != nil && result == nil && (s.replicaSelector == nil || !isCauseByDeadlineExceeded(err)) ==>
 //@       bo.backoffTimes[retry.tikvRPCKind()] == old(bo.backoffTimes[retry.tikvRPCKind()]) + 1 || bo.backoffTimes[retry.tiflashRPCKind()] == old(bo.backoffTimes[retry.tiflashRPCKind()]) + 1
+
+// Forwarding through a proxy: a replica is handed out as proxy only if it is not the leader and has not been tried yet
+// in this send (each follower serves as proxy at most once, so the proxy path cannot be retried without bound).
+//@ func (ReplicaSelectLeaderWithProxyStrategy) isCandidate
+//@   prop C10
+//@   may-panic
+//@   opaque-callee getLivenessState isEpochStale
+//@   ensures fresh: result ==> !isLeader && r.attempts < 1
+//@ func (ReplicaSelectLeaderWithProxyStrategy) next
+//@   prop C10
+//@   may-panic
+//@   opaque-callee getStore getLivenessState unsetProxyStoreIfNeeded invalidateReplicaStore setSyncFlags
+//@   loop 1 invariant l1: true
+//@   at return assert unused: proxy != nil ==> proxy.attempts < 1
